@@ -98,6 +98,8 @@ def oracle_case(lines_in, out):
                 return None
             tmin, tmax, cur = int(f[1]), int(f[2]), int(f[3])
             a = vf.bits_dbl(int(f[4], 16))
+            t_start, t_end = vf.bits_dbl(int(g[1], 16)), vf.bits_dbl(int(g[2], 16))
+            t_prev = None
             mnv, mxv = vf.bits_dbl(int(g[3], 16)), vf.bits_dbl(int(g[4], 16))
             for v in (tmin, tmax):
                 if v <= 0 or v & (v - 1) or v > TOP:
@@ -152,6 +154,16 @@ def oracle_case(lines_in, out):
             act = vf.bits_dbl(int(f[2], 16))
             if act != a * float(ts):
                 return "reported step differs from A*ts"
+            now = vf.bits_dbl(int(f[3], 16))
+            # the reported physical time: strictly increasing, never past the end, on the end with the last step
+            if t_end > t_start:
+                if now > t_end:
+                    return "reported time %r exceeds the end time %r (integer time %d of 2^63)" % (now, t_end, new)
+                if new == TOP and now != t_end:
+                    return "the last step lands on the reported time %r, the end time is %r" % (now, t_end)
+                if t_prev is not None and not now > t_prev and a * float(ts) > abs(t_end) * 2.3e-16:
+                    return "reported time does not increase: %r after %r" % (now, t_prev)
+                t_prev = now
             cur = new
         elif f[0] == "R":
             pass
